@@ -97,6 +97,9 @@ func userFunctionCallRuleSSA(r *Run) {
 		if firstSet >= 0 && install >= 0 && firstSet < install {
 			bad = "a parameter is bound before the function's own scope is installed (it lands in the caller's scope)"
 		}
+		if firstSet >= 0 && install < 0 {
+			bad = "on some path a parameter is bound although no scope of the function's own was installed (it lands in whatever scope is current: the caller's, or that of an earlier activation)"
+		}
 	}
 	for _, e := range evalCalls {
 		for _, s := range setCalls {
@@ -130,11 +133,19 @@ func userFunctionCallRuleSSA(r *Run) {
 		}
 		return ia.X, ia.Index, true
 	}
+	// the argument list itself, or a prefix of it (args[:n] keeps the positions)
+	isArgs := func(v ssa.Value) bool {
+		if v == argsP {
+			return true
+		}
+		sl, ok := v.(*ssa.Slice)
+		return ok && sl.X == argsP && sl.Low == nil
+	}
 	okEval, okBind := false, false
 	var vals ssa.Value
 	for _, e := range evalCalls {
 		sl, idx, ok := elemOf(e.Call.Args[1])
-		if !ok || sl != argsP {
+		if !ok || !isArgs(sl) {
 			continue
 		}
 		if _, isCounter := counterFromZero(idx); !isCounter {
@@ -193,8 +204,16 @@ func userFunctionCallRuleSSA(r *Run) {
 	lg := newLedger(w, fn)
 	nIdx, okIdx := 0, true
 	for _, ob := range lg.collect() {
-		ia, ok := ob.ins.(*ssa.IndexAddr)
-		if !ok || ia.X != argsP {
+		switch x := ob.ins.(type) {
+		case *ssa.IndexAddr:
+			if !isArgs(x.X) {
+				continue
+			}
+		case *ssa.Slice:
+			if x.X != argsP {
+				continue
+			}
+		default:
 			continue
 		}
 		nIdx++
